@@ -3,11 +3,11 @@ import vlib
 def classify(case_line):
     # The dedicated stream:unknown-action cases (every 10th) make rules invalid by an action outside the validator's
     # backendAction set; the main stream never does, so nothing else can hide behind this key.
-    if "stream:unknown-action" in case_line.get("tags", []):
+    if "stream:unknown-action" in (case_line.get("tags") or []):
         return "rule-action-not-validated"
     # Likewise the stream:hep-label cases (every 10th, offset 5) give a host endpoint a label value that breaks the
     # validator's "labels" rule; the main stream never does.
-    if "stream:hep-label" in case_line.get("tags", []):
+    if "stream:hep-label" in (case_line.get("tags") or []):
         return "hostendpoint-labels-not-validated"
     return None
 
